@@ -34,6 +34,8 @@ M0 == [conn   |-> {},      \* sessions that were established
        s2cResp |-> {}, c2sResp |-> {},   \* <<session, id>> of responses handed to the network
        reqTo  |-> {},      \* <<session, id>> of calls POSTed to that session's endpoint
        sreqOn |-> {},      \* <<session, id>> of server->client calls written on that session's stream
+       sreqId |-> <<>>,    \* tag of such a call -> its id
+       c2sAck |-> {},      \* <<session, id>> of responses POSTed by the client that the endpoint acknowledged with 202
        posts  |-> <<>>,    \* p -> [to, kind, late, id]
        acc    |-> {},      \* <<session, id>> of calls the endpoint acknowledged with 202
        notes  |-> <<>>,    \* note tag -> [err, then]
@@ -53,6 +55,8 @@ SideOf(dir) == IF dir = "c2s" THEN "cli" ELSE "srv"
 \* the environment did something to the session that explains an error: a cut, a failed POST, a Close from either side
 \* (the end of the stream and the exit of the hanging GET are consequences, not causes)
 Disturbed(s) == s \in m.hurt
+
+Running(side, s) == {k \in DOMAIN m.hs : k[1] = side /\ m.hs[k].s = s /\ m.hs[k].started /\ ~m.hs[k].ended}
 
 OnCallBegin(e) ==
   m' = [m EXCEPT !.calls = Put(m.calls, e.key, [NoCall EXCEPT !.begun = TRUE, !.dir = e.dir, !.s = e.s, !.after = e.after, !.t = e.t])]
@@ -77,7 +81,7 @@ OnS2C(e) ==
               /\ Check(l, "C02.SseAnsweredOnOwnSession", (e.tag # "" => e.os = e.s) /\ <<e.s, e.id>> \in m.reqTo)
               /\ m' = [m EXCEPT !.s2cResp = @ \cup {<<e.s, e.id>>}]
          [] e.kind = "sreq" ->
-              m' = [m EXCEPT !.sreqOn = @ \cup {<<e.s, e.id>>}, !.reqSeq = Put(m.reqSeq, <<"cli", e.tag>>, e.seq)]
+              m' = [m EXCEPT !.sreqOn = @ \cup {<<e.s, e.id>>}, !.sreqId = Put(m.sreqId, e.tag, e.id), !.reqSeq = Put(m.reqSeq, <<"cli", e.tag>>, e.seq)]
          [] e.kind = "note" ->
               m' = [m EXCEPT !.reqSeq = Put(m.reqSeq, <<"cli", e.tag>>, e.seq)]
          [] OTHER -> m' = m
@@ -101,7 +105,12 @@ OnPostEnd(e) ==
   LET p == Get(m.posts, e.p, [to |-> "?", kind |-> "", late |-> FALSE, id |-> ""]) IN
   \* a request that reaches the server after its session has ended is rejected, not acknowledged and dropped
   /\ Check(l, "C02.SseRejectedNotDropped", (p.late /\ p.kind \in {"call", "ping", "note"}) => ~(e.status >= 200 /\ e.status <= 299))
+  \* "session closed" (400 for a well-formed message to a session the handler still routes to) says that the server's end of
+  \* the transport has been closed: no handler of that session is still running then
+  /\ Check(l, "C05.SseHandlersFinishBeforeTransportClosed",
+           (e.status = 400 /\ ~p.late /\ p.kind \in {"call", "ping", "note", "resp"}) => Running("srv", p.to) = {})
   /\ m' = [m EXCEPT !.acc = IF e.status = 202 /\ p.kind \in {"call", "ping"} /\ ~e.hs THEN @ \cup {<<p.to, p.id>>} ELSE @,
+                    !.c2sAck = IF e.status = 202 /\ p.kind = "resp" /\ ~e.hs THEN @ \cup {<<e.from, p.id>>} ELSE @,
                     !.reqEnd = IF e.status = 202 /\ e.tag # "" /\ ~e.hs THEN Put(m.reqEnd, <<"srv", e.tag>>, e.seq) ELSE @]
 
 SentBefore(a, b) ==
@@ -134,7 +143,6 @@ OnHStart(e) ==
 
 OnHEnd(e) == m' = [m EXCEPT !.hs = Put(m.hs, <<e.side, e.tag>>, [H(e.side, e.tag) EXCEPT !.ended = TRUE])]
 
-Running(side, s) == {k \in DOMAIN m.hs : k[1] = side /\ m.hs[k].s = s /\ m.hs[k].started /\ ~m.hs[k].ended}
 
 \* the server's end of the transport is closed (the hanging GET returns) only after running handlers have returned
 OnGetExit(e) ==
@@ -172,6 +180,8 @@ OnQuiesce(e) ==
        ELSE Fail(l, "C01.SseCallsComplete")
   \* C02: on a session that nothing disturbed every acknowledged call has been answered on that session's stream
   /\ \A a \in m.acc : (a[1] \in m.conn /\ ~Disturbed(a[1]) /\ a[1] \notin m.inj) => Check(l, "C02.SseAnsweredWhenUsable", a \in m.s2cResp)
+  \* ... and the client has answered every call the server wrote on its stream
+  /\ \A a \in m.sreqOn : (a[1] \in m.conn /\ ~Disturbed(a[1]) /\ a[1] \notin m.inj) => Check(l, "C02.SseAnsweredWhenUsable", a \in m.c2sResp)
   \* C05: every Close has returned, and so has the Wait of an end that could learn of the other's end
   /\ Check(l, "C05.SseCloseReturns", m.closeB \subseteq m.closeE)
   /\ \A s \in m.conn :
@@ -200,7 +210,12 @@ Step(e) ==
                                /\ Check(l, "C02.SseAnsweredWhenUsable", e.ok)
     [] e.ev = "call.begin"  -> OnCallBegin(e)
     [] e.ev = "call.end"    -> OnCallEnd(e)
-    [] e.ev = "ctx.cancel"  -> m' = [m EXCEPT !.canc = @ \cup {e.key}]
+    \* the script abandons a nested call: on a session that nothing disturbed, a call whose peer handler had already returned
+    \* its answer, accepted by the server's endpoint, has completed with it by now (at rest) - it is not the abandonment that ends it
+    [] e.ev = "ctx.cancel"  -> /\ m' = [m EXCEPT !.canc = @ \cup {e.key}]
+                               /\ Check(l, "C01.SseCallsComplete",
+                                        (~Disturbed(Call(e.key).s) /\ Call(e.key).s \notin m.inj /\ H("cli", e.key).ended /\ e.key \in DOMAIN m.sreqId
+                                         /\ <<Call(e.key).s, m.sreqId[e.key]>> \in m.c2sAck) => Call(e.key).ended >= 1)
     [] e.ev = "wire.s2c"    -> OnS2C(e)
     [] e.ev = "post.begin"  -> OnPostBegin(e)
     [] e.ev = "post.end"    -> OnPostEnd(e)
